@@ -11,7 +11,9 @@ from hypothesis import strategies as st
 
 from vf.detsched import SimAbort
 
-EXC_NAMES = ['ValueError', 'KeyError', 'CustomError', 'CustomError2', 'OSError']
+# the last three are types the library itself catches around its own queue/future operations: a user failure of such a type
+# must still be treated as the user's failure
+EXC_NAMES = ['ValueError', 'KeyError', 'CustomError', 'CustomError2', 'OSError', 'TimeoutError', 'QueueEmpty', 'QueueFull']
 
 
 from .workers import CustomError, CustomError2  # noqa: E402,F401
@@ -28,6 +30,16 @@ def make_exc(name, key, site):
         return CustomError2(site, key)
     if name == 'OSError':
         return OSError(site, key)
+    if name == 'TimeoutError':
+        return TimeoutError(site, key)
+    if name == 'QueueEmpty':
+        import queue
+
+        return queue.Empty(site, key)
+    if name == 'QueueFull':
+        import queue
+
+        return queue.Full(site, key)
     if name == 'StopRequested':
         from mpservice._common import StopRequested
 
@@ -55,7 +67,10 @@ DELAYS = [0.0, 0.0, 0.001, 0.004, 0.01, 0.05]
 
 
 def delays_strategy(max_len=5):
-    return st.lists(st.sampled_from(DELAYS), min_size=1, max_size=max_len)
+    # mostly short delays; now and then one stall beyond the one-second scale (polling intervals and internal timeouts of the
+    # code under test are 0.01-1 s: a party that stalls longer than that is a class of its own, and a stall of exactly 1 s makes an
+    # expiry coincide with an arrival in virtual time, which is where the schedule decides who goes first)
+    return st.lists(st.sampled_from(DELAYS * 3 + [1.0, 1.3]), min_size=1, max_size=max_len)
 
 
 def _sleep(d):
